@@ -42,14 +42,14 @@ func init() {
 }
 
 type regTunnel struct {
-	ident string
-	key   string // "<nil>" for the nil key
-	rs    *grpctunnel.ReverseTunnelServer
-	open  bool
-	serve *ServeResult
-	cancel context.CancelFunc
-	link  *Link
-	ch    grpctunnel.TunnelChannel
+	ident         string
+	key           string // "<nil>" for the nil key
+	rs            *grpctunnel.ReverseTunnelServer
+	open          bool
+	serve         *ServeResult
+	cancel        context.CancelFunc
+	link          *Link
+	ch            grpctunnel.TunnelChannel
 	opens, closes int
 }
 
@@ -423,5 +423,122 @@ func famRegistry(w *World, c *Case, rng *rand.Rand) {
 	w.mu.Unlock()
 	w.Stat("registry_runs", 1)
 	w.Stat("registry_tunnels", len(order))
+	w.Finish()
+}
+
+// ---- first use of a brand-new affinity key by many goroutines at once ----
+
+func init() {
+	families["keyrace"] = famKeyRace
+	prev := listers["C12"]
+	listers["C12"] = func(tier string, seed int64) []Case {
+		out := prev(tier, seed)
+		rng := rand.New(rand.NewSource(seed*607 + 121))
+		n := 60
+		if tier == "thorough" {
+			n = 3000
+		}
+		for i := 0; i < n; i++ {
+			out = append(out, Case{Family: "keyrace", Seed: rng.Int63(), Cfg: WorldCfg{Dir: "reverse"}, P: map[string]int{"keys": 12}})
+		}
+		return out
+	}
+}
+
+// famKeyRace: for each of several never-seen keys, several WaitForReady
+// callers, Ready pollers and two tunnels with that key are released by one
+// barrier, so that the first uses of the key are truly concurrent.
+func famKeyRace(w *World, c *Case, rng *rand.Rand) {
+	hd := w.NewHandler(false, AffinityFromMD)
+	w.Handler = hd
+	tunnelpb.RegisterTunnelServiceServer(w.Conn, hd.Service())
+	w.Stub = tunnelpb.NewTunnelServiceClient(w.Conn)
+	for ki := 0; ki < c.p("keys", 12); ki++ {
+		key := fmt.Sprintf("nk%d", ki)
+		barrier := make(chan struct{})
+		nw := 2 + rng.Intn(6)
+		waitRes := make(chan error, nw)
+		wctx, wcancel := context.WithCancel(context.Background())
+		for i := 0; i < nw; i++ {
+			go func() {
+				<-barrier
+				waitRes <- hd.KeyAsChannel(key).WaitForReady(wctx)
+			}()
+		}
+		for i := 0; i < 2; i++ {
+			go func() {
+				<-barrier
+				_ = hd.KeyAsChannel(key).Ready()
+			}()
+		}
+		var rss []*grpctunnel.ReverseTunnelServer
+		for i := 0; i < 2; i++ {
+			ident := fmt.Sprintf("%s-t%d", key, i)
+			rs := grpctunnel.NewReverseTunnelServer(w.Stub)
+			desc, impl := NewSvc(w.Env, ident)
+			rs.RegisterService(desc, impl)
+			rss = append(rss, rs)
+			ctx := metadata.NewOutgoingContext(w.RootCtx, metadata.Pairs("x-key", key, "x-ident", ident))
+			w.Env.wg.Add(1)
+			go func() {
+				defer w.Env.wg.Done()
+				<-barrier
+				_, _ = rs.Serve(ctx)
+			}()
+		}
+		w.Wait()
+		close(barrier)
+		w.Advance(10 * time.Millisecond)
+		w.Stat("keyrace_keys", 1)
+		// every waiter released, Ready, both tunnels reachable through the key
+		released := 0
+		for i := 0; i < nw; i++ {
+			select {
+			case err := <-waitRes:
+				if err != nil {
+					w.Violate("C12", "wait-for-ready-error", "WaitForReady(%q) returned %v", key, err)
+				}
+				released++
+			default:
+			}
+		}
+		if released != nw {
+			w.Violate("C12", "wait-for-ready-blocked-while-ready", "new key %q: %d of %d concurrent WaitForReady callers are still blocked although two tunnels with that key are open", key, nw-released, nw)
+		}
+		wcancel()
+		if !hd.KeyAsChannel(key).Ready() {
+			w.Violate("C12", "ready-mismatch", "new key %q: Ready() is false although two tunnels with that key are open", key)
+		}
+		_, perKey := grpctunnel.VerifReverseRegistry(hd)
+		if perKey[key] != 2 {
+			w.Violate("C12", "enumeration-mismatch", "new key %q: the per-key registry reachable through KeyAsChannel holds %d of the 2 open tunnels", key, perKey[key])
+		}
+		seen := map[string]bool{}
+		for i := 0; i < 2; i++ {
+			id := fmt.Sprintf("%s-r%d", key, i)
+			s := &RPCSpec{ID: id, Method: "Unary", Client: []Op{{K: "invoke", N: 5}}, Handler: []Op{{K: "ident"}, {K: "recv"}, {K: "send", N: 5}, {K: "ret"}}}
+			w.Env.StartRPC(context.Background(), hd.KeyAsChannel(key), s)
+			w.Advance(time.Millisecond)
+			if v := buildViews(w.Env)[id]; v != nil && v.invoke != nil && v.invoke.Err == "" {
+				for _, r := range v.all {
+					if r.K == "ident" {
+						seen[r.Extra["ident"]] = true
+					}
+				}
+			} else {
+				w.Violate("C12", "routed-rpc-failed", "new key %q: RPC through KeyAsChannel failed although two tunnels are open", key)
+			}
+		}
+		if len(seen) != 2 {
+			w.Violate("C12", "round-robin-not-fair", "new key %q: two consecutive RPCs used tunnels %v, two are open", key, seen)
+		}
+		for _, rs := range rss {
+			go rs.Stop()
+		}
+		w.Advance(10 * time.Millisecond)
+		if hd.KeyAsChannel(key).Ready() {
+			w.Violate("C12", "ready-mismatch", "key %q: Ready() still true after both tunnels were stopped", key)
+		}
+	}
 	w.Finish()
 }
